@@ -33,8 +33,8 @@ def b_part(ctx):
     if not m:
         out['inconclusive'].append('layer B produced no verdict: ' + (p.stdout + p.stderr)[-400:]); return out
     out['coverage'] = {'evaluations': int(m.group(3)), 'distinct_nontrivial': int(m.group(4)), 'texts': int(m.group(2)), 'max_text_chars': maxlen,
-                       'alphabet': ['a', 'é', '€', '\\n', ' ', '\\r'], 'failures': int(m.group(5)), 'wall_s': round(time.time() - t0, 2),
-                       'rule': 'every text over the 6-symbol alphabet up to the length bound x every char-boundary position 0..=len x with/without file name, '
+                       'alphabet': ['a', 'é', '€', '\\n', ' ', '\\r', '\\t'], 'failures': int(m.group(5)), 'wall_s': round(time.time() - t0, 2),
+                       'rule': 'every text over the 7-symbol alphabet up to the length bound x every char-boundary position 0..=len x with/without file name, '
                                'each distinct; non-trivial = text contains a newline',
                        'exhaustive': True,
                        'samples': [{'text': 'a\\né', 'position': 2, 'file': None, 'contract': 'Line 2 character 1, prints "é", caret under column 1'},
